@@ -483,6 +483,7 @@ func checkC05(R *Run) {
 	R.note(fmt.Sprintf("%d registered handlers, %d Authorize call sites on the requester.", len(regs), nGuardSites))
 
 	R.ruleAuthorizeSound()
+	R.ruleCreateNoOverwrite()
 
 	// login-name-guard: in handleNewConnection
 	if fn := R.mustFn("(*hotline.Server).handleNewConnection"); fn != nil {
